@@ -29,7 +29,12 @@ pub fn run(_args: &[String]) -> i32 {
     let mut bad: Vec<(String, String)> = Vec::new();
     let mut evaluated = 0u64;
     // statement rows oldest first: (date, payee, signed movement of the account as the bank sees it: + = money in / credit)
-    let rows: Vec<(&str, &str, Decimal)> = vec![("2024-03-01", "Salary", d("100.00")), ("2024-03-05", "Migros", d("-30.50")), ("2024-03-09", "Refund", d("5.25")), ("2024-03-12", "Fee", d("-0.75"))];
+    let rows_spread: Vec<(&str, &str, Decimal)> = vec![("2024-03-01", "Salary", d("100.00")), ("2024-03-05", "Migros", d("-30.50")), ("2024-03-09", "Refund", d("5.25")), ("2024-03-12", "Fee", d("-0.75"))];
+    // the same statement booked on one single day, and one whose first and last rows share a day: the order of the rows is given by
+    // `row_order`, never by comparing dates (seed C16-j)
+    let rows_one_day: Vec<(&str, &str, Decimal)> = rows_spread.iter().map(|r| ("2024-03-05", r.1, r.2)).collect();
+    let rows_same_ends: Vec<(&str, &str, Decimal)> = vec![("2024-03-05", "Salary", d("100.00")), ("2024-03-05", "Migros", d("-30.50")), ("2024-03-06", "Refund", d("5.25")), ("2024-03-06", "Fee", d("-0.75"))];
+    for (variant, rows) in [(0, rows_spread), (1, rows_one_day), (2, rows_same_ends)] {
     for liability in [false, true] {
         for credit_debit in [false, true] {
             for new_to_old in [false, true] {
@@ -37,6 +42,7 @@ pub fn run(_args: &[String]) -> i32 {
                   // column layout: by label or by 1-based index; delimiter; preamble lines to skip (one of them blank)
                   for (by_index, delim, skip_head) in [(false, ',', 0usize), (true, ',', 0), (false, ';', 0), (false, ',', 3), (true, '\t', 3)] {
                     if (by_index || delim != ',' || skip_head != 0) && liability && credit_debit { continue; }
+                    if variant != 0 && (by_index || delim != ',' || skip_head != 0) { continue; }
                     evaluated += 1;
                     let mut yaml = String::from("path: stmt.csv\nencoding: UTF-8\naccount: Acct:Main\n");
                     yaml.push_str(if liability { "account_type: liability\n" } else { "account_type: asset\n" });
@@ -91,6 +97,7 @@ pub fn run(_args: &[String]) -> i32 {
                         let de = match t.to_double_entry(&entry.account) { Ok(x) => x, Err(e) => { problem = Some(format!("row {} could not be converted: {}", i, e)); break; } };
                         let want_date = chrono::NaiveDate::parse_from_str(rows[i].0, "%Y-%m-%d").unwrap();
                         if de.date != want_date { problem = Some(format!("transaction {} is dated {}, rows must come out oldest first ({})", i, de.date, want_date)); break; }
+                        if de.payee.as_ref() != rows[i].1 { problem = Some(format!("transaction {} is the row of {:?}, rows must come out oldest first: {:?} is due here", i, de.payee, rows[i].1)); break; }
                         let acct: Vec<&syntax::plain::Posting> = de.posts.iter().filter(|p| p.account.as_undecorated() == "Acct:Main").collect();
                         let other: Vec<&syntax::plain::Posting> = de.posts.iter().filter(|p| p.account.as_undecorated() != "Acct:Main").collect();
                         if acct.len() != 1 || other.len() != 1 { problem = Some(format!("row {}: expected one account posting and one counter posting", i)); break; }
@@ -127,6 +134,7 @@ pub fn run(_args: &[String]) -> i32 {
                 }
             }
         }
+    }
     }
     conversions(&mut bad, &mut evaluated);
     for (s, why) in bad.iter().take(8) {
